@@ -34,7 +34,7 @@ PROP = 'C12'
 
 def translate(ctx: Ctx) -> tuple[bool, str]:
 	try:
-		with ctx.timed('translate'):
+		with ctx.timed('translate'), gramlib.budget(120):  # the translator runs the real rule loaders and the real gram tokenizer
 			ctx.generated_tables.extend(gen_rules.generate())
 		return True, ''
 	except Exception as e:  # noqa: BLE001
@@ -380,8 +380,9 @@ def tree_values(t: Any) -> list[str]:
 
 def search_render_import(ctx: Ctx) -> SearchResult:
 	"""`gram_check`'s output path on generated grammars: render_rules(tree) must be an importable module whose function returns
-	the rule set the tree describes (independent walk `gramlib.tree_show`). Domain: token values without `'` and without raw
-	LF/CR (render_rules has no escaping for those — outside the shipped grammars, not part of the property)."""
+	the rule set the tree describes (independent walk `gramlib.tree_show`). Token values with `'` or a raw LF/CR (render_rules has no
+	escaping for those: every printout of a rule set with the terminal "\\n" holds a raw LF) are generated for every fourth grammar and
+	keyed `render-import:quote-or-line-break-in-terminal` (proposed/C12-render-quote-line-break.md)."""
 	rng = ctx.sub_rng('render-import')
 	res = SearchResult('exec(render_rules(tree)) defines a function returning the rule set of the tree (real gram_check output path, generated grammars)')
 	hist: Counter[str] = Counter()
@@ -389,6 +390,7 @@ def search_render_import(ctx: Ctx) -> SearchResult:
 	extra_r = [f'/{a}{c}{b}/' for c in LINE_SEPARATORS for a, b in (('x', ''), ('', 'y'))]
 	ok_val = lambda v: "'" not in v and '\n' not in v and '\r' not in v  # noqa: E731
 	gen = gramlib.RuleGen(rng, strings=[v for v in gramlib.STRING_TERMINALS if ok_val(v)] + extra_s, regexps=[v for v in gramlib.REGEXP_TERMINALS if ok_val(v)] + extra_r)
+	gen_all = gramlib.RuleGen(rng, strings=gramlib.STRING_TERMINALS + ['"a\'b"', '"\\r"'], regexps=gramlib.REGEXP_TERMINALS + ["/'[^']*'/"])
 	world = GramWorld()
 	seen: set[str] = set()
 	dl = gramlib.Deadline(ctx.scale(90, 600))
@@ -396,10 +398,15 @@ def search_render_import(ctx: Ctx) -> SearchResult:
 		if dl.expired():
 			res.note = f'stopped early: wall budget {dl.seconds} s over'
 			break
-		t = gen.grammar(rng.randint(1, 4), rng.randint(0, 2), bare_groups=rng.random() < 0.2)
+		unrestricted = i % 4 == 1
+		if i == 1:
+			# x := "\n" y ; y := "'"  — the line-feed terminal every tokenizer-style grammar declares, and a quote
+			t = ('entry', [('rule', [('symbol', 'x'), ('__empty__', ''), ('terms', [('string', '"\\n"'), ('symbol', 'y')])]), ('rule', [('symbol', 'y'), ('__empty__', ''), ('string', '"\'"')])])
+		else:
+			t = (gen_all if unrestricted else gen).grammar(rng.randint(1, 4), rng.randint(0, 2), bare_groups=rng.random() < 0.2)
 		stem = rng.choice(['gen_rules', 'x_rules', 'py_rules'])
 		variants: list[tuple[str, Any]] = [('tree', None)]
-		if i % 3 == 0:
+		if i % 3 == 0 or unrestricted:
 			variants.append(('printout', None))
 		for variant, _ in variants:
 			res.cases += 1
@@ -412,8 +419,8 @@ def search_render_import(ctx: Ctx) -> SearchResult:
 				else:
 					k, rules = real_from_ast(t)
 					printout = pretty_of(rules) + '\n'
-					if not all(ok_val(v) for v in [printout.replace('\n', '')]) or any(c in s2 for s2 in string_terminals(rules) for c in '\n\r'):
-						hist['printout:outside-domain'] += 1
+					if not unrestricted and (not all(ok_val(v) for v in [printout.replace('\n', '')]) or any(c in s2 for s2 in string_terminals(rules) for c in '\n\r')):
+						hist['printout:left-to-the-unrestricted-pass'] += 1
 						continue
 					from rogw.tranp.implements.syntax.tranp.syntax import SyntaxParser
 					with gramlib.budget(gramlib.CALL_BUDGET_S):
@@ -428,7 +435,14 @@ def search_render_import(ctx: Ctx) -> SearchResult:
 				hist[f'{variant}:imports-equal'] += 1
 				continue
 			vals = tree_values(t)
-			cls = 'raw-line-separator-in-terminal' if any(c in v for v in vals for c in LINE_SEPARATORS) else 'other'
+			try:
+				seen_by_render = tree_values(ast_tree.simplify())  # what render_rules gets: the printer has turned escapes into raw characters
+			except Exception:  # noqa: BLE001
+				seen_by_render = vals
+			if any(c in v for v in seen_by_render for c in "'\n\r"):
+				cls = 'quote-or-line-break-in-terminal'
+			else:
+				cls = 'raw-line-separator-in-terminal' if any(c in v for v in vals for c in LINE_SEPARATORS) else 'other'
 			hist[f'{variant}:{cls}'] += 1
 			res.findings.append(Finding(key=f'render-import:{cls}', what=f'the module rendered for a generated grammar is not importable or defines other rules: {got[:200]}',
 				replay={'tree': t, 'variant': variant, 'rendered': text[:3000], 'expected': want, 'got': got}))
@@ -812,19 +826,21 @@ def search_gram_check_file(ctx: Ctx) -> SearchResult:
 					res.findings.append(Finding(key=rt_key(rules), what=f'the rules compiled from the grammar file are not the printed rule set; file text {text[:200]!r}', replay={**rec, 'expected': want, 'got': got}))
 					continue
 				vals = tree_values(mpayload)  # the values render_rules sees: escapes already turned into the raw characters by the printer
-				if all("'" not in v and '\n' not in v and '\r' not in v for v in vals):
-					try:
-						ns: dict[str, Any] = {}
-						exec(compile(generated, f'<generated {stem}.py>', 'exec'), ns)  # noqa: S102 - the module gram_check wrote
-						got = gramlib.rules_show(ns[stem]())
-					except Exception as e:  # noqa: BLE001
-						got = f'raised {type(e).__name__}: {e}'
-					if got != want:
+				try:
+					ns: dict[str, Any] = {}
+					exec(compile(generated, f'<generated {stem}.py>', 'exec'), ns)  # noqa: S102 - the module gram_check wrote
+					got = gramlib.rules_show(ns[stem]())
+				except Exception as e:  # noqa: BLE001
+					got = f'raised {type(e).__name__}: {e}'
+				if got != want:
+					if any(c in v for v in vals for c in "'\n\r"):
+						cls = 'quote-or-line-break-in-terminal'  # render_rules has no escaping for these (proposed/C12-render-quote-line-break.md)
+					else:
 						cls = 'raw-line-separator-in-terminal' if any(c in v for v in vals for c in LINE_SEPARATORS) else 'other'
-						hist[f'lf:MODULE-IMPORT:{cls}'] += 1
-						res.findings.append(Finding(key=f'render-import:{cls}', what=f'the module gram_check wrote for a grammar file is not importable or defines other rules: {got[:200]}', replay={**rec, 'generated': generated[:3000], 'expected': want, 'got': got}))
-						continue
-					hist['lf:module-imports-equal'] += 1
+					hist[f'lf:MODULE-IMPORT:{cls}'] += 1
+					res.findings.append(Finding(key=f'render-import:{cls}', what=f'the module gram_check wrote for a grammar file is not importable or defines other rules: {got[:200]}', replay={**rec, 'generated': generated[:3000], 'expected': want, 'got': got}))
+					continue
+				hist['lf:module-imports-equal'] += 1
 			hist[f'{variant}:file-equals-in-memory'] += 1
 	res.distinct = len(seen)
 	res.histogram = dict(hist)
